@@ -3,7 +3,10 @@ import CollectionsC.Proofs.TSTCross
 /-! # C16 (TST table part): rejected operations are inert
 
 The table has no index arguments; the rejected calls are `get` / `remove` of an absent key and
-`iter_remove` with nothing yielded (`CC_ERR_KEY_NOT_FOUND`). -/
+`iter_remove` with nothing yielded or repeated for the same yielded element (`CC_ERR_KEY_NOT_FOUND`).
+`CC_ERR_ALLOC` (only `add` and the constructors) is covered by `C08TST.add_atomic` / `new_atomic`,
+restated here as `alloc_error_is_inert`; the ledger record itself changes there (the schedule is
+consumed, the refusal counted) but owns the same blocks. -/
 namespace CC.Properties.C16TST
 open CC CC.TST
 open CC.Spec.StrMap (Op Out IOp)
@@ -11,7 +14,7 @@ open CC.Spec.StrMap (Op Out IOp)
 variable {cmp : Cmp}
 
 /-- **error_is_inert**: a status other than `CC_OK` / `CC_ERR_ALLOC` leaves the whole physical state and
-the ledger unchanged — for every state and every key -/
+the whole ledger record unchanged (`m' = m`) — for every state and every key, no ledger hypothesis -/
 theorem error_is_inert (t : Table) (op : Op) (mem : Mem) (st : Stat)
     (h : (t.step cmp op mem).1.st = some st) (h1 : st ≠ .ok) (h2 : st ≠ .errAlloc) :
     (t.step cmp op mem).2.1 = t ∧ (t.step cmp op mem).2.2 = mem := by
@@ -35,19 +38,31 @@ theorem error_is_inert (t : Table) (op : Op) (mem : Mem) (st : Stat)
   | removeAll => simp [Table.step] at h
   | size => exact ⟨rfl, rfl⟩
   | enumerate => simp [Table.step] at h
+  | iterate prog => simp [Table.step] at h
 
-/-- the same for the iterator: `iter_remove` that reports an error changes neither table nor iterator -/
+/-- the `CC_ERR_ALLOC` case (C08): same table, same owned blocks, no fault -/
+theorem alloc_error_is_inert (t : Table) (k : Key) (v : Nat) (mem : Mem) (h : (t.add cmp k v mem).1 = .errAlloc) :
+    (t.add cmp k v mem).2.1 = t ∧ (t.add cmp k v mem).2.2.liveT t.triple = mem.liveT t.triple ∧
+    (t.add cmp k v mem).2.2.fault = mem.fault := by
+  have := Table.add_atomic_any (cmp := cmp) t k v mem (by rw [h]; simp)
+  exact ⟨this.2.1, this.2.2.1, this.2.2.2⟩
+
+/-- the same for the iterator: `iter_remove` that reports an error changes neither table nor iterator nor
+ledger; `iter_next` never reports an error status (only `CC_OK` / `CC_ITER_END` on a valid iterator) -/
 theorem iter_error_is_inert (t : Table) (it : Iter) (w : Bool) (mem : Mem) (h : (iterRemove t it w mem).1 ≠ .ok) :
     iterRemove t it w mem = (.errKeyNotFound, none, t, it, mem) := by
   cases hc : it.cur with
-  | none => exact iterRemove_inert t it w mem hc
-  | some p => simp [iterRemove, hc] at h
+  | none => exact iterRemove_inert t it w mem (Or.inl hc)
+  | some p =>
+    cases ha : it.adv with
+    | true => exact iterRemove_inert t it w mem (Or.inr ha)
+    | false => simp [iterRemove, hc, ha] at h
 
-/-- **absent key ⇒ not found + unchanged** (`get`, `contains_key`, `remove`) -/
+/-- **absent key ⇒ not found + unchanged** (`get`, `contains_key`, `remove`), no ledger hypothesis -/
 theorem absent_key_rejected_partial (hc : CmpLaw cmp) (t : Table) (k : Key) (mem : Mem)
-    (hk : k ≠ []) (hg : t.Good cmp) (hl : t.Owns mem) (hp : t.abs.get k = none) :
+    (hk : k ≠ []) (hg : t.Good cmp) (hp : t.abs.get k = none) :
     t.remove cmp k mem = (.errKeyNotFound, none, t, mem) ∧ t.get cmp k = (.errKeyNotFound, none) ∧
-    t.containsKey cmp k = false := C11.remove_absent_inert_partial hc t k mem hk hg hl hp
+    t.containsKey cmp k = false := C11.remove_absent_inert_partial hc t k mem hk hg hp
 
 /-- conversely a present key is never rejected -/
 theorem present_key_accepted_partial (hc : CmpLaw cmp) (t : Table) (k : Key) (mem : Mem) (v : Nat)
@@ -57,13 +72,14 @@ theorem present_key_accepted_partial (hc : CmpLaw cmp) (t : Table) (k : Key) (me
   rw [C11.get_refines_partial hc t k hk hg, hp]
 
 /-- **empty container ⇒ error + unchanged**: every key is absent from the empty table, the empty key too -/
-theorem empty_table_rejects (k : Key) (mem : Mem) :
-    (Table.mk 0 .nil).remove cmp k mem = (.errKeyNotFound, none, ⟨0, .nil⟩, mem) ∧
-    (Table.mk 0 .nil).get cmp k = (.errKeyNotFound, none) := by
+theorem empty_table_rejects (tr : Triple) (k : Key) (mem : Mem) :
+    (Table.mk 0 .nil tr).remove cmp k mem = (.errKeyNotFound, none, ⟨0, .nil, tr⟩, mem) ∧
+    (Table.mk 0 .nil tr).get cmp k = (.errKeyNotFound, none) := by
   simp [Table.remove, Table.get, Node.findPath, Node.lookup]
 
-/-- `iter_remove` before the first `iter_next` and after `CC_ITER_END`: not found, inert -/
-theorem iter_remove_without_yield_rejected (t : Table) (it : Iter) (w : Bool) (mem : Mem) (h : it.cur = none) :
+/-- `iter_remove` before the first `iter_next`, after `CC_ITER_END`, or repeated (X7): not found, inert -/
+theorem iter_remove_without_yield_rejected (t : Table) (it : Iter) (w : Bool) (mem : Mem)
+    (h : it.cur = none ∨ it.adv = true) :
     iterRemove t it w mem = (.errKeyNotFound, none, t, it, mem) := iterRemove_inert t it w mem h
 
 /-- `get`, `contains_key`, `size`, enumeration never change the table, whatever they return -/
@@ -72,5 +88,10 @@ theorem queries_are_pure (t : Table) (k : Key) (mem : Mem) :
     (t.step cmp .size mem).2 = (t, mem) ∧ (t.step cmp .enumerate mem).2 = (t, mem) := by
   refine ⟨rfl, rfl, rfl, ?_⟩
   simp [Table.step, iterAll_eq]
+
+/-! non-vacuity: an absent near-miss key (a proper prefix's extension) on the nested-prefix table -/
+example : C11.nestedTable.Good cmpSigned ∧ C11.nestedTable.abs.get [97, 99] = none ∧
+    C11.nestedTable.remove cmpSigned [97, 99] {} = (.errKeyNotFound, none, C11.nestedTable, {}) := by
+  decide
 
 end CC.Properties.C16TST
